@@ -216,9 +216,19 @@ theorem load_frame (inv : Arr → Arr) (d : Dir) (v : View) (d' : Dir) (h : load
     split <;> split <;> simp
 
 theorem load_rejects_nonmonotone (inv : Arr → Arr) (d : Dir) (s : Arr) (hs : d.lookup "spike_times.npy" = some s)
-    (hm : monotone s.data = false) : load inv d = .error .nonMonotone := by
+    (hm : monotone (scrub s).data = false) : load inv d = .error .nonMonotone := by
   simp only [load, bind, Except.bind, pure, Except.pure, throw, throwThe, MonadExceptOf.throw, hs]
-  simp [squeeze, hm]
+  simp [hm]
+
+theorem load_rejects_two_cluster_files (inv : Arr → Arr) (d : Dir)
+    (h1 : (findPath d ["spike_clusters.npy"]).isSome) (h2 : (findPath d ["spikes.clusters*.npy"]).isSome)
+    (v : View) (d' : Dir) : load inv d ≠ .ok (v, d') := by
+  intro h
+  simp only [load, bind, Except.bind, pure, Except.pure, throw, throwThe, MonadExceptOf.throw, h1, h2,
+    Bool.and_self, if_true] at h
+  repeat' first
+    | (cases h; done)
+    | split at h
 
 theorem scrub_spec (a : Arr) :
     (scrub a).shape = a.shape ∧ (scrub a).data.length = a.data.length ∧
